@@ -2,7 +2,8 @@
     (core/src/read.rs, struct NanBox), for both pointer widths W = 32 (Wasm) and W = 64.
     Final statements only; the proofs are in SFV.NanBox.NanBoxProofs (and NanBoxSweep). *)
 From Coq Require Import NArith List Bool.
-From SFV Require Import Gen.NanBoxGen Base.F64 NanBox.NanBox NanBox.NanBoxProofs NanBox.NanBoxSweep.
+From SFV Require Import Gen.NanBoxGen Base.F64 NanBox.NanBox NanBox.NanBoxProofs NanBox.NanBoxSweep
+  Base.RsPrelude NanBox.NanBoxExt Gen.NanBoxFnGen NanBox.NanBoxGenEq.
 Import ListNotations.
 Open Scope N_scope.
 
@@ -273,3 +274,46 @@ Proof. vm_compute. repeat split; reflexivity. Qed.
 Example ex_sign_ignored :
   try_decode 32 (2^63 + nb_string 32 16 3) = DOk (VString 16 3).
 Proof. vm_compute. reflexivity. Qed.
+
+(* ------------------------------------------------------------------ *)
+(** * The model IS the code, at both pointer widths (tie by translation, T8)
+
+    [Gen/NanBoxFnGen.v] is regenerated on every run from core/src/read.rs by translators/rs2v: [encode],
+    the seven constructors and [try_decode], mechanically translated with the arithmetic of the Rust types
+    ([Val] = 2W bits, [usize] = W bits, checked shifts, truncating casts, the cfg'd lets selected by W).
+    For W = 32 (the Wasm layout, which the 64-bit host cannot execute) and W = 64, every argument in the
+    range of its type and both overflow modes, the functions all theorems above are about compute exactly
+    what the translated Rust computes. *)
+Theorem C06_code_encode : forall trap W, W = 32 \/ W = 64 -> forall ptr len tag, ptr < 2 ^ W ->
+  NanBox_encode W trap ptr len tag = GOk (encode W ptr len tag).
+Proof. exact encode_eq_w. Qed.
+
+Theorem C06_code_try_decode : forall trap W, W = 32 \/ W = 64 -> forall v, v < 2 ^ (2 * W) ->
+  NanBox_try_decode W trap v = conv_dec (try_decode W v).
+Proof. exact try_decode_eq_w. Qed.
+
+Theorem C06_code_number : forall trap W, W = 32 \/ W = 64 -> forall bits, bits < 2 ^ 64 ->
+  agree_opt (NanBox_number W trap bits) (nb_number W bits).
+Proof. exact number_eq_w. Qed.
+
+Theorem C06_code_pointer_constructors : forall trap W, W = 32 \/ W = 64 -> forall ptr len, ptr < 2 ^ W ->
+  NanBox_string W trap ptr len = GOk (nb_string W ptr len) /\
+  NanBox_obj W trap ptr len = GOk (nb_obj W ptr len) /\
+  NanBox_array W trap ptr len = GOk (nb_array W ptr len).
+Proof. exact ctor_eq_w. Qed.
+
+Theorem C06_code_scalar_constructors : forall trap W, W = 32 \/ W = 64 ->
+  (forall b, NanBox_bool W trap b = GOk (nb_bool W b)) /\
+  NanBox_null W trap = GOk (nb_null W) /\
+  (forall code, code < 2 ^ W -> NanBox_error W trap code = GOk (nb_error W code)).
+Proof. exact scalar_ctor_eq_w. Qed.
+
+(** what the conversions say, spelled out *)
+Theorem C06_code_conv_meaning : forall d,
+  conv_dec d = match d with
+               | DOk VNull => GOk (Some ValueRef_Null) | DOk (VBool b) => GOk (Some (ValueRef_Bool b))
+               | DOk (VNumber x) => GOk (Some (ValueRef_Number x)) | DOk (VString p l) => GOk (Some (ValueRef_String p l))
+               | DOk (VObject p l) => GOk (Some (ValueRef_Object p l)) | DOk (VArray p l) => GOk (Some (ValueRef_Array p l))
+               | DOk (VError c) => GOk (Some (ValueRef_Error c)) | DErr => GOk None | DPanic => GPanic 0
+               end.
+Proof. intros [[]| |]; reflexivity. Qed.
